@@ -778,6 +778,15 @@ func (h *hist) judgeSound(sid string, r *rawReport) {
 	var unexplained []string
 	tags := map[string]string{}
 	for _, p := range r.Problems {
+		if h.staleFired {
+			switch p.Code {
+			case "chain-too-short", "chain-not-terminated", "cross-link", "chain-loop", "dot-entry":
+				// a directory rewritten from a stale snapshot brings back entries whose size and first
+				// cluster no longer match the FAT (their chains were truncated, released or reused since)
+				tags["fat-stale-parent-snapshot"] = p.Msg
+				continue
+			}
+		}
 		switch p.Code {
 		case "orphan-clusters":
 			if h.staleFired {
